@@ -3,6 +3,7 @@ import itertools
 from .inv_base import InvProp
 from ..prng import Rng
 from .. import geninv as GI
+from .. import geninv2 as GI2
 from .. import genv as G
 from .. import core
 from .c01 import inv, cls
@@ -64,6 +65,15 @@ class C15(InvProp):
             r2 = Rng(seed, "C15", i)
             r2.choice([0]); r2.choice([0])  # keep streams simple: twin built by rewriting below
             yield make_twin(c)
+            if i % 3 == 0:
+                # the same class file under two names in different directories (symlink): its relative includes
+                # resolve against the directory of the name it was included by
+                r3 = Rng(seed, "C15:alias", i)
+                ca = GI.gen_inventory(r3, n_classes=r3.range(2, 6), shape=r3.choice(["tree", "dag", "chain"]), nested=True,
+                                      relative=r3.choice([60, 100]), n_nodes=r3.range(1, 3))
+                if GI2.add_aliases(r3, ca):
+                    ca["fam"] = "aliases"
+                    yield ca
 
     def post_check(self, results):
         out = []
